@@ -110,7 +110,7 @@ def main(chk, a, tier, seed):
         os.makedirs(replay_dir, exist_ok=True)
         rev = chk.repo_rev()
         n = 1 if a.replay else chk.NPROC
-        budget = a.budget or (0 if tier == "thorough" else 240)
+        budget = a.budget or chk.default_budget(prop, tier)
         jobs = []
         for i in range(n):
             jobs.append({"prop": prop, "tier": tier, "seed": seed, "i": i, "n": n, "out": os.path.join(work, "out_%d.json" % i),
